@@ -151,6 +151,7 @@ def h11_parse_responses(data: bytes, eof: bool, request_methods: Optional[List[b
     conn = h11.Connection(our_role=h11.CLIENT, max_incomplete_event_size=1 << 26)
     idx = 0
     fed = False
+    fed_eof = False
     cur: Optional[Dict[str, Any]] = None
 
     def send_req() -> None:
@@ -159,15 +160,25 @@ def h11_parse_responses(data: bytes, eof: bool, request_methods: Optional[List[b
         conn.send(h11.Request(method=m, target=tgt, headers=[(b'Host', b'example.org')]))
         conn.send(h11.EndOfMessage())
 
+    out['closed_mid_message'] = False
     try:
         send_req()
-        conn.receive_data(data)
+        if data:
+            conn.receive_data(data)
         fed = True
-        if eof:
-            conn.receive_data(b'')
         while True:
             ev = conn.next_event()
             if ev is h11.NEED_DATA:
+                if eof and not fed_eof:
+                    # end-of-stream matters only to a close-delimited body
+                    fed_eof = True
+                    if cur is not None:
+                        try:
+                            conn.receive_data(b'')
+                            continue
+                        except h11.ProtocolError:
+                            pass
+                    out['closed_mid_message'] = cur is not None
                 if cur is not None:
                     out['incomplete'] = True
                 break
@@ -350,9 +361,8 @@ def h11_parse_requests(data: bytes, eof: bool = False) -> Dict[str, Any]:
     conn = h11.Connection(our_role=h11.SERVER, max_incomplete_event_size=1 << 26)
     cur: Optional[Dict[str, Any]] = None
     try:
-        conn.receive_data(data)
-        if eof:
-            conn.receive_data(b'')
+        if data:
+            conn.receive_data(data)
         while True:
             ev = conn.next_event()
             if ev is h11.NEED_DATA:
